@@ -101,6 +101,29 @@ func c04class(doc []byte, at int) string {
 	return ""
 }
 
+// c04nonasciiLine: the narrower class for wrong *lines* after a non-ASCII character (empty: no known defect)
+func c04nonasciiLine(doc []byte, at int) string {
+	// an illegal token (a non-ASCII character outside strings and comments, up to the next blank or line
+	// end) terminated by a CR that is not part of CR LF: that CR is consumed without counting a line
+	for i := 0; i < at; i++ {
+		if doc[i] < 0x80 {
+			continue
+		}
+		for j := i + 1; j < at; j++ {
+			if doc[j] == ' ' || doc[j] == '\n' {
+				break
+			}
+			if doc[j] == '\r' {
+				if !(j+1 < at && doc[j+1] == '\n') {
+					return "C04-nonascii-cr"
+				}
+				break
+			}
+		}
+	}
+	return ""
+}
+
 func VerifRun_C04a() {
 	n := verifParam("N")
 	var pre []byte
@@ -127,6 +150,19 @@ func VerifRun_C04a() {
 		r := LocToRange(&loc)
 		// locate the identifier in the text: the harness' `zq` is the only place these letters occur
 		class := c04class(doc, n)
+		if class == "C04-nonascii" {
+			// the class is about columns (GBK re-decoding, uncounted blank): the line must still be right
+			wantLine := 0
+			for i := 0; i < n; i++ {
+				if doc[i] == '\n' || (doc[i] == '\r' && !(i+1 < n && doc[i+1] == '\n')) {
+					wantLine++
+				}
+			}
+			if int(r.Start.Line) != wantLine || int(r.End.Line) != wantLine {
+				verifViolation(c04nonasciiLine(doc, n), "an identifier token after a non-ASCII character is reported on the wrong line")
+				continue
+			}
+		}
 		if r.Start.Line > r.End.Line || (r.Start.Line == r.End.Line && r.Start.Character > r.End.Character) {
 			verifViolation(class, "an identifier token has a range whose start is after its end")
 			continue
